@@ -44,8 +44,13 @@ def gen_case(rng, ctx):
     ds = libx.normalise_raw(ds)
     scls, sch = gen.scheme(rng, "S1 S2 S3 S3 S3 S4 S6 S7")
     cands = [gen.candidate(rng, ds, "random")[1] for _ in range(2)]
+    has_empty = any(not r for r in ds)
+    mutate = rng.choice(["empty", "empty", "elements", "rate"] if has_empty else ["elements", "rate", "empty", "none"])
+    uni = ref.universe(ds)
     return {"ds": ds, "scheme": sch, "cands": cands, "dcls": cls, "scls": scls, "k": rng.choice([0.5, 2.0, 3.0]),
-            "alg": rng.choice(["Copeland", "BioConsert", "parfront", "none"])}
+            "alg": rng.choice(["Copeland", "BioConsert", "parfront", "none"]), "mutate": mutate,
+            "victims": [e for e in uni if rng.random() < 0.3][:max(0, len(uni) - 1)],
+            "rate": rng.choice([0.3, 0.5, 0.6, 1.0])}
 
 
 def compare_table(ctx, case, M, table, ids, exact, via):
@@ -146,6 +151,34 @@ def check_case(case, ctx):
         nn = positions.shape[0]
         compare_table(ctx, case, result, t2, {i: i for i in range(nn)}, gen.is_dyadic(s_raw), "internal call by " + alg)
     common.COST_CALLS.clear()
+    # observe -> mutate the Dataset in place -> observe: the table must follow the rankings the Dataset now holds
+    # (the mutators themselves are judged by C16; here the Dataset's own public view after the mutation is the input)
+    mut = case.get("mutate", "none")
+    if mut != "none":
+        if mut == "empty":
+            stm, _ = call(dataset.remove_empty_rankings)
+        elif mut == "elements":
+            stm, _ = call(dataset.remove_elements, {ck.Element(v) for v in case.get("victims", [])})
+        else:
+            stm, _ = call(dataset.remove_elements_rate_presence_lower_than, case.get("rate", 0.5))
+        st5, ds_now = call(libx.raw_dataset, dataset)
+        if stm == "ok" and st5 == "ok" and ref.universe(ds_now):
+            changed = [ref.canon(r) for r in ds_now] != [ref.canon(r) for r in ds]
+            ctx.count("tables_after_in_place_mutation")
+            if changed:
+                ctx.count("tables_after_in_place_mutation:changed:" + mut)
+            elems_now = ref.universe(ds_now)
+            ids_now = {e.value: i for e, i in dataset.mapping_elem_id.items()}
+            table_now = ref.cost_table(ds_now, sch, elems_now)
+            if set(ids_now) == set(elems_now):
+                for how, getter in (("positions", dataset.get_positions), ("bucket ids", dataset.get_bucket_ids)):
+                    st6, M6 = call(lambda g=getter: PBA.pairwise_cost_matrix(g(), scheme))
+                    if st6 == "exc":
+                        ctx.violation("C02/table-raises", f"pairwise_cost_matrix({how}) raised after {mut} removal in place: "
+                                      + exc_desc(M6), {**case, "ds_after_mutation": ds_now})
+                    else:
+                        compare_table(ctx, {**case, "ds_after_mutation": ds_now}, M6, table_now, ids_now, exact,
+                                      f"{how}, after an in-place removal ({mut}) on a Dataset whose table had been built")
     # reach bookkeeping: which statuses occur with non-zero penalties, in which id order
     B, T = sch
     seen = set()
@@ -175,5 +208,12 @@ def reach(counters, tier, info):
     out.append({"name": "recording postcondition evaluations", "observed": v, "required": 500, "ok": v >= 500})
     v = counters.get("internal_tables_judged", 0)
     out.append({"name": "tables obtained by internal callers judged", "observed": v, "required": 200, "ok": v >= 200})
+    v = counters.get("tables_after_in_place_mutation", 0)
+    out.append({"name": "tables rebuilt after an in-place removal on the same Dataset", "observed": v, "required": 300,
+                "ok": v >= 300})
+    for mut in ("empty", "elements", "rate"):
+        v = counters.get("tables_after_in_place_mutation:changed:" + mut, 0)
+        out.append({"name": f"... where the removal ({mut}) changed the rankings", "observed": v, "required": 25,
+                    "ok": v >= 25})
     out += anchors.reach(info, [(FILES[0], 24, 96, "jitted triple loop (interpreted mode)")])
     return out
